@@ -780,6 +780,7 @@ def run_check(tier, base_seed, wall, workers, do_selftest):
     os.makedirs(os.path.join(VERIF, 'replays'), exist_ok=True)
     new = 0
     seen = set()
+    shrink_deadline = time.time() + 200          # all shrinking together
     for v in agg['violations']:
         sig = v['violation']['sig']
         k = match_known('C18', v['violation'], known)
@@ -791,7 +792,11 @@ def run_check(tier, base_seed, wall, workers, do_selftest):
         if sig in seen:
             continue
         seen.add(sig)
-        small, nruns = shrink(v['plan'], sig)
+        left = shrink_deadline - time.time()
+        if left > 15:
+            small, nruns = shrink(v['plan'], sig, budget_runs=120, budget_s=min(90, left))
+        else:
+            small, nruns = v['plan'], 0
         res = replay_plan(small)
         if res['violation'] is None or res['violation']['sig'] != sig:
             small, res = v['plan'], replay_plan(v['plan'])
